@@ -144,6 +144,8 @@ APPEND = {
          'converter with a polarization that changes with time.', ''),
  'C02': ('; the event-list layer of xStokesAnalysis (constructor with its weight arrays, masked reductions, the row of polarization_table) is regenerated from the vectorised source (translator/vectrans.py)',
          ' T-tie: gen_init_eq_model, gen_table_row_eq_model, gen_analysis_eq_model, gen_neff_scalar_eq_model (AnaTie lemmas: gen_energy_mask_eq, gen_sum_stokes_eq, gen_w2_eq, gen_effective_mu_eq, gen_average_energy_eq). PCUBE files with the weights read from a column named by --weightcol and the response set left to the file\'s IRFNAME.', ''),
+ 'C08': ('; the cube side is stated on the event-list layer regenerated from the vectorised source (translator/vectrans.py)',
+         ' T-tie: gen_adjacent_bins_additive, gen_adjacent_bins_additive_init, gen_edge_event_lower (Props/C08Gen.lean).', ''),
  'C07': ('', ' T-tie also of the sums of pulse profiles, count spectra and MDP map cubes: gen_pp_iadd_eq_model, gen_pp_iadd_comm, gen_pp_iadd_assoc, gen_pha1_iadd_eq_model, gen_mdpcube_iadd_eq_model.', ''),
  'C06': ('', ' delta_phi_ampl_eq_stokes: the amplitude / phase flavour of the spurious-modulation correction equals the Stokes flavour, for negative amplitudes too.', ''),
  'C10': ('; _time_header_keywords, time_selected, phase_selected and average_deadtime_per_event are regenerated from the source (imperative translator over RealLike: optional values, '
